@@ -48,6 +48,16 @@ def ops_for(bs, level):
         ops = [o for i, o in enumerate(o for o in ops if o.split(':')[1:2] == ['A']) if i % 2 == 0 or o[0] == 't'] + ['r']
     return ops
 
+def mini_ops(bs):
+    """focused alphabet on the first six blocks of file A: small writes inside each block, single-block and range punches, single-block and range
+    preallocation, one truncate, reopen -- deep sequences of these build every arrangement of holes, written and unwritten extents (incl. adjacent
+    unwritten extents that are physically contiguous) and then write into / convert / merge them"""
+    ops = ['w:A:%d:9' % (b * bs + 7) for b in range(6)] + ['w:A:0:%d' % (6 * bs)]
+    ops += ['p:A:%d:%d' % (b, b) for b in range(1, 5)] + ['p:A:1:4']
+    ops += ['a:A:0:%d:1' % b for b in range(1, 5)] + ['a:A:0:0:6', 'a:A:0:2:2', 'a:A:8:1:3']
+    ops += ['t:A:%d' % (3 * bs), 'r']
+    return ops
+
 import re
 def inline_class(cfg, msg):
     # (the other inline-data defects that used to be classified here were repaired: known_findings.json, fixed: entries)
@@ -172,6 +182,33 @@ def main(tier, only=None):
             level = nxt
             if cut: dmax = d - 1
             if not level or cut: break
+        # second search on extent-mapped configurations: the focused six-block alphabet, deeper (quick 4, thorough 5 levels), same de-duplication and oracle
+        if name in ('extent', 'bigalloc', 'extent_csum', 'extent_4k') and not ck.expired():
+            mops = mini_ops(bs); level = ['']; mdepth = 4 if quick else 5; mseen = {}; md = 0
+            for d in range(1, mdepth + 1):
+                if ck.expired(): ck.add(exhaustive=False); break
+                hists = [(h + ' ' + o).strip() for h in level for o in mops]
+                chunks = [hists[i:i + 400] for i in range(0, len(hists), 400)]
+                res = []; cut = False
+                for i0 in range(0, len(chunks), 128):
+                    if ck.expired(): cut = True; break
+                    res += pmap(run_batch, [(name, c) for c in chunks[i0:i0 + 128]], chunksize=1)
+                if cut: ck.add(exhaustive=False)
+                nxt = []
+                for batch in res:
+                    for r in batch:
+                        trans += 1
+                        if r['bad']:
+                            ck.violation('%s :: %s' % (name, r['h']), {'config': name, 'history': r['h'], 'what': r['bad'], 'errors_returned': r['errs'], 'root_cause_class': inline_class(name, r['bad'])})
+                            continue
+                        if r['hash'] not in seen and r['hash'] not in mseen:
+                            mseen[r['hash']] = r['h']
+                            if not r['degraded']: nxt.append(r['h'])
+                            md = d
+                level = nxt
+                if not level or cut: break
+            per.setdefault(name + '/mini', {}).update({'states': len(mseen), 'depth_completed': md, 'alphabet': len(mops)})
+            seen.update(mseen)
         # consistency of every distinct state (thorough) / of a deterministic third of them (quick)
         st = sorted(seen.values())
         if quick: st = st[::3]
@@ -183,7 +220,7 @@ def main(tier, only=None):
         total_tr += trans; total_states += len(seen); maxdepth = max(maxdepth, dmax)
     ck.add(evaluations=total_tr, distinct_nontrivial=total_states, states=total_states, transitions=total_tr, traces_validated_against_impl=total_tr,
            rule='BFS over histories of file operations on two files (pwrite at offsets around block / indirect-level / cluster boundaries with 5 lengths, two writes + read through one handle, set_size, punch over block ranges crossing 12 and the '
-                'first indirect boundary, fallocate with each flag, fs close+reopen) on block-mapped, extent, extent+csum, bigalloc, inline_data and 4k filesystems (empty and nearly full); states de-duplicated on the final image hash; '
+                'first indirect boundary, fallocate with each flag, fs close+reopen; and on extent-mapped configurations a second, deeper search (4-5 levels) over a focused alphabet of 22 operations on the first six blocks: small in-block writes, single-block/range punch and preallocation, truncate, reopen) on block-mapped, extent, extent+csum, bigalloc, inline_data and 4k filesystems (empty and nearly full); states de-duplicated on the final image hash; '
                 'oracle after every operation: both files read back through fresh handles (chunk 4096 and 1000) equal the byte-array model (last write wins, holes and punched ranges are zero, exact size); every distinct final image: e2fsck -fn = 0 and independent checker clean',
            samples=['extent :: w:A:1023:1025 p:A:0:1', 'blockmap :: w:A:12288:3072 p:A:11:13 w:B:0:1'])
     ck.cov['configs'] = per
